@@ -182,25 +182,50 @@ def install(repo=None):
     templateloader.datetime = SimDatetime
     configuration.datetime = SimDatetime
     N = ns
+    ns.snapshot = _snapshot()
     return ns
 
 
-def reset_globals():
-    """Bring the process-global tables back to what a fresh interpreter has.
-    This is the simulator's 'process restart' between runs (never inside one)."""
+_KROME_ATTRS = ("reacformat", "_user_commons", "_user_vars")
+_ABSENT = object()
+
+
+def _snapshot():
+    """State of the process-global tables right after import (taken once, by install())."""
+    import copy
+
     S = N.Species
-    # importing naunet builds the module-level cooling processes, whose first
-    # Species() installs the default lists: that is the state of a fresh process
-    S._known_elements = list(S.default_elements)
-    S._known_pseudoelements = list(S.default_pseudoelements)
-    S._replacement = {}
+    return {
+        "elements": list(S._known_elements),
+        "pseudo": list(S._known_pseudoelements),
+        "replacement": dict(S._replacement),
+        "krome": {a: copy.deepcopy(N.KROMEReaction.__dict__[a]) if a in N.KROMEReaction.__dict__ else _ABSENT
+                  for a in _KROME_ATTRS},
+    }
+
+
+def reset_globals():
+    """Bring the process-global tables back to what they were right after import - the state
+    of a fresh process.  Runs execute in forked children of a pristine post-import process, so
+    this is normally the identity; it matters only where a caller runs several things in one
+    process (selftests, the extend oracle's 'new CLI process')."""
+    import copy
+
+    snap = N.snapshot
+    S = N.Species
+    S._known_elements = list(snap["elements"])
+    S._known_pseudoelements = list(snap["pseudo"])
+    S._replacement = dict(snap["replacement"])
     cd = N.chemistrydata
     cd.user_binding_energy.clear()
     cd.user_photon_yield.clear()
     cd.user_enthalpy.clear()
-    for attr in ("reacformat", "_user_commons", "_user_vars"):
-        if attr in N.KROMEReaction.__dict__:
-            delattr(N.KROMEReaction, attr)
+    for attr, val in snap["krome"].items():
+        if val is _ABSENT:
+            if attr in N.KROMEReaction.__dict__:
+                delattr(N.KROMEReaction, attr)
+        else:
+            setattr(N.KROMEReaction, attr, copy.deepcopy(val))
     N.network.supported_reaction_class.clear()
     N.network.supported_reaction_class.update(N.builtin_reaction_class)
     N.network.supported_grain_model.clear()
